@@ -18,6 +18,7 @@ import Rooc.Props.C08
 import Rooc.Proofs.ComposeSem
 import Rooc.Proofs.LinBridge
 import Rooc.Proofs.LinD10
+import Rooc.Proofs.ComposeVarFree
 
 set_option linter.unusedSectionVars false
 set_option linter.unusedSimpArgs false
@@ -178,6 +179,22 @@ theorem compiled_wf {m : Model (Ext K)} {tol : Ext K} {maxSteps : Nat} {lm : Lin
   obtain ⟨hvn, hdv, hdecl, hol, hrl, hof, hoff, hrf⟩ := compiled_shape h hnd hfin
   obtain ⟨hcont, hcmp, hopt⟩ := standardize_ok_shape hs
   exact ⟨⟨hol, hof, hoff, hrl, hrf, hcmp, hdecl, hcont, hfmt.real, hfmt.nn, hopt⟩, hfmt.nnok, hdv, hvn⟩
+
+/-- a compiled model without domain entries is variable-free in the sense of `Compose.VarFree` (C08: variables = domain
+keys, one coefficient per variable, finite data). -/
+theorem varFree_of_compile {m : Model (Ext K)} {tol : Ext K} {maxSteps : Nat} {lm : LinModel (Ext K)}
+    (h : Compile.linearize m tol maxSteps = .ok lm) (hnd : (m.domain.map (·.name)).Nodup)
+    (hfin : FiniteLits m = true) (hdom : lm.domain = []) : Compose.VarFree lm := by
+  obtain ⟨_, _, hdecl, hol, hrl, _, hoff, hrf⟩ := compiled_shape h hnd hfin
+  have hv : lm.vars = [] := by
+    cases hvs : lm.vars with
+    | nil => rfl
+    | cons v vs =>
+      obtain ⟨ty, hty⟩ := hdecl v (by rw [hvs]; simp)
+      simp [lookup, hdom] at hty
+  refine ⟨hdom, hv, ?_, fun r hr => ⟨?_, (hrf r hr).2⟩, hoff⟩
+  · rw [hv] at hol; exact List.length_eq_zero_iff.mp hol
+  · have := hrl r hr; rw [hv] at this; exact List.length_eq_zero_iff.mp this
 
 /-! ### `FiniteLits` (C08's hypothesis) follows from the contract `LogicModel` -/
 
